@@ -656,6 +656,55 @@ def _run_case(ck, env: Env, sig, rng, reqs, metas, stats):
                       and same_value(env.np, v_, var._value.value)), "?")
         real_outs.append({"key": k, "type": t, "value": v})
     metas.append(("infer", sig, {"outs": real_outs, "warns": sorted((a, b or "") for a, b in wl)}))
+    # ---- what the built graph carries for the outputs requested as results (`Custom.resultInfo`)
+    in_vars = list(node.inputs.get_vars().values())
+    if outs and all(v.type is not None and v.type._is_concrete for v in in_vars):
+        rc = bool(len(sig["name"]) % 2 or sig["thook"] == "nonconcrete")
+        req_pairs = [[f"r_{k}", k] for k, _ in outs]
+        if len(req_pairs) > 1 and sig["version"] % 2:
+            req_pairs = req_pairs[::-1]  # results requested in another order than declared
+        results_case(ck, env, sig, case, th, dict(outs), req_pairs, rc, tok_t, thook, vhook, passing, reqs, metas, stats)
+
+
+def results_case(ck, env, sig, case, th, outs, req_pairs, rc, tok_t, thook, vhook, passing, reqs, metas, stats):
+    """`Graph.to_onnx(concrete=rc)` with the custom node's outputs as results: graph.output must carry
+    exactly the types the hook declared; an output without hook entry cannot become a result."""
+    try:
+        results = __import__("spox._graph", fromlist=["results"]).results
+        Type = env.ts.Type
+    except Exception as e:  # noqa: BLE001
+        ck.broken("correspondence", "spox._graph.results / Type not observable", f"{type(e).__name__}: {e}")
+        return
+    real = None
+    try:
+        with warnings.catch_warnings():
+            warnings.simplefilter("ignore")
+            gp = results(**{n: outs[k] for n, k in req_pairs}).to_onnx(concrete=rc)
+        got = [(o.name, Type._from_onnx(o.type)) for o in gp.output]
+        real = {"ok": [[n, next((tk for tk, t_ in tok_t.items() if t_ == t), "?")] for n, t in got]}
+    except (TypeError, ValueError) as e:
+        real = {"err": type(e).__name__, "msg": str(e)[:120]}
+    except Exception as e:  # noqa: BLE001
+        ck.broken("correspondence", "Graph.to_onnx with custom outputs as results not observable", f"{type(e).__name__}: {e}")
+        return
+    stats["results_cases"] = stats.get("results_cases", 0) + 1
+    c2 = {**case, "kind": "node"}
+    declared = {k: (th or {}).get(k) for _, k in req_pairs}
+    if "ok" in real:
+        for (n, t), (_, k) in zip(got, req_pairs):
+            if declared[k] is None:
+                ck.failure("results:untyped-accepted", f"output {k} has no type hook entry but is written out as result {n}: {t}", c2)
+            elif t != declared[k]:
+                ck.failure("results:type-mismatch", f"graph.output {n} carries {t}, the type hook declared {declared[k]} for {k}", c2)
+            elif rc and not declared[k]._is_concrete:
+                ck.failure("results:nonconcrete-accepted", f"output {k} declared {declared[k]} (no shape) is written out as result {n} although concrete=True", c2)
+        if [n for n, _ in got] != [n for n, _ in req_pairs]:
+            ck.failure("results:names", f"graph.output {[n for n, _ in got]} for requested {[n for n, _ in req_pairs]}", c2)
+    elif all(t is not None and (t._is_concrete or not rc) for t in declared.values()):
+        ck.failure("results:raises", f"all requested outputs have declared {'concrete ' if rc else ''}types but Graph.to_onnx raises {real['err']}: {real['msg']}", c2)
+    reqs.append({"kind": "results", "thook": thook, "vhook": vhook, "check": passing, "req": req_pairs,
+                 "concrete": [k for k, t in tok_t.items() if t._is_concrete], "rc": rc})
+    metas.append(("results", sig, real))
 
 
 def compare_model(ck, kind, sig, real, model, env):
@@ -1303,6 +1352,12 @@ def run(ck: core.Check):
                 d = compare_model(ck, kind, sig, real, m, env)
             except Exception as e:  # noqa: BLE001
                 d = f"comparison not observable: {type(e).__name__}: {e}"
+        elif kind == "results":
+            if "ok" in real:
+                d = None if m.get("ok") == real["ok"] else f"result infos: model {m} vs real {real}"
+            else:
+                want = {"TypeError": "untyped", "ValueError": "notConcrete"}.get(real["err"])
+                d = None if m.get("err") == want else f"result infos: model {m} vs real {real}"
         elif kind == "adapt":
             d = None if m == real else f"adapt_inline decision: model {m} vs observed {real}"
         elif kind == "reinfer":
